@@ -85,7 +85,7 @@ pub fn judge(seed: &'static str, word: &[Op]) -> Option<Out> {
         let mut lo = pos.saturating_sub(80);
         while !a.is_char_boundary(lo) { lo -= 1; }
         ds.push(Disagreement {
-            sig: format!("workbook-differs-after-reload last-op={}{}", last, ctx),
+            sig: format!("workbook-differs-after-reload last-op={}{}{}", last, if lang_static == "en" { String::new() } else { format!(" lang={}", lang_static) }, ctx),
             case: case.clone(),
             detail: format!("decode(encode(w)) != w near: `{}` vs `{}`", a.get(lo..).map(|x| x.chars().take(160).collect::<String>()).unwrap_or_default(), b.get(lo..).map(|x| x.chars().take(160).collect::<String>()).unwrap_or_default()),
         });
